@@ -13,6 +13,13 @@ inline void installRoutesHook()
         const uint64_t a = mix64(caseSeed, 0xACCE55ull) % 100, b = mix64(caseSeed, 0xA565ull) % 4;
         g_routes.access = a < 40 ? 0 : 1 + (int)((a - 40) / 15); // 40 % getTrajectory(), 15 % each of the other four
         g_routes.args = b < 2 ? 0 : (int)b - 1;
+        g_routes.hold = (mix64(caseSeed, 0x401Dull) % 4) == 0 ? 1 : 0;
+        const uint64_t pq = mix64(caseSeed, 0x93E8ull) % 20;
+        g_routes.prequery = pq < 9 ? (int)pq + 1 : 0; // 45 % one of the nine queries, 55 % none
+        if (g_routes.hold)
+            c.event("route.result_held_by_reference_across_second_call");
+        if (g_routes.prequery)
+            c.event("route.prequery." + std::to_string(g_routes.prequery));
         static const char *an[] = {"route.access.getTrajectory", "route.access.getPPoly", "route.access.getTrajectoryCopy", "route.access.getPPolyCopy", "route.access.held_reference"};
         static const char *gn[] = {"route.args.mixed", "route.args.temporaries", "route.args.named_lvalues"};
         c.event(an[g_routes.access]);
